@@ -158,6 +158,10 @@ type Store struct {
 	DefaultManager  string
 	poisoned        map[string]bool
 	admitting       int
+	// ErrBeforeFn, if set, chooses the error an injected error-before outcome
+	// returns (nil: the default internal server error) - e.g. a 404 for a
+	// list of a kind whose CRD is being replaced.
+	ErrBeforeFn func(c Call) error
 	// DeleteFinalizers lists, per kind, finalizers the API server itself adds
 	// to an object when its deletion is first requested (as the
 	// apiextensions API server does for CustomResourceDefinitions with
